@@ -194,6 +194,17 @@ theorem go_native_endian_is_machine_endian :
     (∀ x ∈ machineBigEndian, nativeEndianOk x = true)
     ∧ (∀ a ∈ archesAll, machineBigEndian.any (fun x => nameEq x.1 a) = true) := by decide +kernel
 
+/-- **Which id a group's health is published under.** No call site of `outboundAliveChangeCallback` forms
+the outbound id as "index in `outbounds` plus a constant": the id is the index the routing rules carry
+(or the reserved 0/1), so the slot written is the slot `wan_outbound_is_alive` reads for that group. -/
+theorem callback_id_is_rule_id :
+    (∀ s ∈ Gen.goCallbackIdShapes, callbackShapeBad s = false) ∧ Gen.goCallbackIdShapes.any (nameEq · n!"index") = true := by
+  decide +kernel
+
+/-- The map-I/O scan reaches every map the control plane holds a handle for (except the three it does
+not do I/O on): rows cannot silently vanish behind a local alias or helper. -/
+theorem map_io_covers_every_map : ∀ t ∈ Gen.goMapTags, mapIOCovers t = true := by decide +kernel
+
 /-- **Programs and map kinds.** Every `{Prog, Attach}` pair of the control plane names a program whose
 ELF section is the one that attach type requires; every program the control plane refers to is
 attached that way or is a `tc/…` classifier; every map name the loader looks up in the collection spec
@@ -426,6 +437,22 @@ theorem domain_routing_key_bytes (e : Endian) (f : Flow) (mapped : Bool) (hf : f
   unfold goDomainKey cDomainKey
   rw [has, ipv6ToU32_identity e _ h16 hb16]
 
+/-- **Port 53 at the Go read site.** On either byte order, the value the janitor (and the kernel) load from
+`key.Sport`/`key.Dport` equals `dnsPortNetworkOrder = Htons(53)` exactly for port 53 — so "DNS entry"
+means the same flows on both sides. (With a host-order 53 it would mean port 13568 on little-endian.) -/
+theorem dns_port_read_site (e : Endian) (p : Nat) (hp : p < 65536) :
+    keyPortLoad e p = goDnsPortConst e ↔ p = 53 := by
+  unfold keyPortLoad goDnsPortConst htons
+  constructor
+  · intro h
+    have hb := nativeVal_inj e (beBytes 2 p) (beBytes 2 53) (by simp [beBytes_length]) (beBytes_bytes 2 p) (beBytes_bytes 2 53) h
+    have := congrArg beVal hb
+    rw [beVal_beBytes 2 p (by simpa using hp), beVal_beBytes 2 53 (by decide)] at this
+    exact this
+  · rintro rfl; rfl
+
+example : keyPortLoad .little 13568 = 53 ∧ goDnsPortConst .little = 13568 := by decide +kernel
+
 /-! ## D. Byte order of the `match_set` value union -/
 
 /-- The full statement one would like: what the control plane writes into `match_set.value` for an LPM
@@ -520,7 +547,7 @@ theorem ring_index_little_endian_partial (maxSets old start count : Nat) (v : Li
 /-- **MAC keys.** For every MAC address and either byte order, the address whose /128 prefix
 `addSourceMac` stores (`copy(addr16[10:], mac)`) is byte-identical to the `mac_be` array the kernel
 callers of `route()` build with `bpf_htonl`, hence the stored LPM host key equals the kernel's probe.
-(The C packers are modelled, not executed by this check — see the design note.) -/
+(The three C packers are executed natively by the check: op `cmacsite`.) -/
 theorem mac_key_bytes (e : Endian) (m0 m1 m2 m3 m4 m5 : Nat) (h0 : m0 < 256) (h1 : m1 < 256) (h2 : m2 < 256)
     (h3 : m3 < 256) (h4 : m4 < 256) (h5 : m5 < 256) :
     cMacPack e m0 m1 m2 m3 m4 m5 = goMacAddr16 [m0, m1, m2, m3, m4, m5]
